@@ -95,7 +95,7 @@ def main():
     done = 0
     try:
         for (f, i, op, s, e, rep) in all_sites:
-            if done >= a.count:
+            if done >= a.count or os.path.exists('/root/scratch/mutate.stop'):
                 break
             lines = open(f).read().split("\n")
             orig = lines[i]
